@@ -5,6 +5,7 @@ import (
 	"encoding/hex"
 	"errors"
 	"fmt"
+	"math"
 	"os"
 	"strconv"
 	"time"
@@ -62,6 +63,20 @@ func (a CheckRequestWrapperAction) Execute(services *SwapServices, swap *SwapDat
 
 	if swap.GetProtocolVersion() != PEERSWAP_PROTOCOL_VERSION {
 		swap.CancelMessage = "incompatible peerswap version"
+		services.requestedSwapsStore.Add(swap.PeerNodeId, RequestedSwap{
+			Asset:           swap.GetChain(),
+			AmountSat:       swap.GetAmount(),
+			Type:            swap.GetType(),
+			RejectionReason: swap.CancelMessage,
+		})
+		return swap.HandleError(errors.New(swap.CancelMessage))
+	}
+
+	// The amount is converted to msat (x1000) for every channel and policy
+	// check; an amount that overflows this conversion would wrap around and
+	// pass those checks.
+	if swap.GetAmount() > math.MaxUint64/1000 {
+		swap.CancelMessage = "swap amount is too large"
 		services.requestedSwapsStore.Add(swap.PeerNodeId, RequestedSwap{
 			Asset:           swap.GetChain(),
 			AmountSat:       swap.GetAmount(),
